@@ -33,10 +33,12 @@ CONSTANTS Plans,        \* plan ids (1..2)
           MaxCrashes,
           RecoveryModes, \* subset of BOOLEAN: what a new process may be configured with
           Ops,          \* the API operations callers may use
-          Aging         \* TRUE: a submitted plan may grow older than the maximum submit age
+          Aging,        \* TRUE: a submitted plan may grow older than the maximum submit age
+          TwoStep       \* TRUE: the vault keeps its search index in a second container, written in a second step (cosmosdb)
 
 VARIABLES store,    \* durable status of the plan: "none" | "NS" | "RU" | "CO" | "FA"
           adone,    \* durable result of the plan's action: "no" | "ok" | "fail"
+          idx,      \* the plan's status in the vault's search index (what Search/List answer from); = store for a one-step vault
           old,      \* the submission is older than the configured maximum
           alive, recovery,
           mu,       \* startMu: 0 or the caller holding it
@@ -51,18 +53,22 @@ VARIABLES store,    \* durable status of the plan: "none" | "NS" | "RU" | "CO" |
           panicked,
           ev        \* the event emitted by the last step (NoEv: silent step)
 
-vars == <<store, adone, old, alive, recovery, mu, waiter, gen, closed, runners, call, ncalls, crashes, okstart, inv, redo, fresh, lost, panicked, ev>>
+vars == <<store, adone, idx, old, alive, recovery, mu, waiter, gen, closed, runners, call, ncalls, crashes, okstart, inv, redo, fresh, lost, panicked, ev>>
 \* what the exhaustive configurations distinguish states by (ev is output only)
-view == <<store, adone, old, alive, recovery, mu, waiter, gen, closed, runners, call, ncalls, crashes, okstart, inv, redo, fresh, lost, panicked>>
+view == <<store, adone, idx, old, alive, recovery, mu, waiter, gen, closed, runners, call, ncalls, crashes, okstart, inv, redo, fresh, lost, panicked>>
 
 NoEv == [ev |-> "none"]
 Idle == [op |-> "idle", p |-> 0, pc |-> "-", seen |-> "-", res |-> "-", g |-> 0, ws |-> FALSE, wo |-> FALSE]
 Terminal == {"CO", "FA"}
 Rank(s) == CASE s = "none" -> 0 [] s = "NS" -> 1 [] s = "RU" -> 2 [] OTHER -> 3
 
-\* the volatile state of a new process on durable state (st, ad)
-Boot(st, rec, g0) ==
-  LET rs == IF rec THEN {p \in Plans : st[p] = "RU"} ELSE {}
+\* what the vault's own Recovery (storage.Recovery, called by coercion.New BEFORE the engine's recovery) makes of the index:
+\* every plan the index lists as Running gets its search record rewritten from the plan itself
+IndexRepaired(st, ix) == [p \in Plans |-> IF ix[p] = "RU" THEN st[p] ELSE ix[p]]
+\* the volatile state of a new process on durable state st with (repaired) index ix: the engine's recovery resumes what
+\* a status search for Running returns
+Boot(st, ix, rec, g0) ==
+  LET rs == IF rec THEN {p \in Plans : ix[p] = "RU"} ELSE {}
       num == CHOOSE f \in [rs -> g0..(g0 + Cardinality(rs))] : \A a, b \in rs : a # b => f[a] # f[b]
   IN /\ alive' = TRUE /\ recovery' = rec
      /\ mu' = 0
@@ -73,7 +79,7 @@ Boot(st, rec, g0) ==
      /\ okstart' = [p \in Plans |-> p \in rs]
 
 Init ==
-  /\ store = [p \in Plans |-> "none"] /\ adone = [p \in Plans |-> "no"] /\ old = [p \in Plans |-> FALSE]
+  /\ store = [p \in Plans |-> "none"] /\ adone = [p \in Plans |-> "no"] /\ idx = [p \in Plans |-> "none"] /\ old = [p \in Plans |-> FALSE]
   /\ alive = TRUE /\ recovery \in RecoveryModes /\ mu = 0
   /\ waiter = [p \in Plans |-> 0] /\ gen = 1 /\ closed = {} /\ runners = {}
   /\ call = [c \in Callers |-> Idle] /\ ncalls = 0 /\ crashes = 0
@@ -82,7 +88,7 @@ Init ==
   /\ panicked = FALSE /\ ev = NoEv
 
 Hist == <<inv, redo, fresh, lost>>
-Dur == <<store, adone>>
+Dur == <<store, adone, idx>>
 Proc == <<alive, recovery>>
 
 Set(c, f) == call' = [call EXCEPT ![c] = f]
@@ -110,7 +116,7 @@ Return(c) ==
 (********************************* Submit *********************************)
 SubCreate(c) ==
   /\ alive /\ call[c].pc = "create"
-  /\ store' = [store EXCEPT ![call[c].p] = "NS"]
+  /\ store' = [store EXCEPT ![call[c].p] = "NS"] /\ idx' = [idx EXCEPT ![call[c].p] = "NS"]   \* Create is all-or-nothing (C14)
   /\ Res(c, "ok", "ret") /\ ev' = NoEv
   /\ UNCHANGED <<adone, old, Proc, mu, waiter, gen, closed, runners, ncalls, crashes, okstart, Hist, panicked>>
 
@@ -184,7 +190,8 @@ SRd(c) ==
 Move(r, pc2) == runners' = (runners \ {r}) \cup {[r EXCEPT !.pc = pc2]}
 RBegin(r) ==
   /\ alive /\ r.pc = "begin"
-  /\ store' = [store EXCEPT ![r.p] = "RU"] /\ Move(r, "invoke") /\ ev' = NoEv
+  /\ store' = [store EXCEPT ![r.p] = "RU"] /\ ev' = NoEv
+  /\ IF TwoStep THEN Move(r, "ibegin") /\ UNCHANGED idx ELSE Move(r, "invoke") /\ idx' = [idx EXCEPT ![r.p] = "RU"]
   /\ UNCHANGED <<adone, old, Proc, mu, waiter, gen, closed, call, ncalls, crashes, okstart, Hist, panicked>>
 RResume(r) ==
   /\ alive /\ r.pc = "resume"
@@ -203,11 +210,19 @@ RPlugin(r, o) ==
 RRecord(r) ==
   /\ alive /\ r.pc = "record"
   /\ adone' = [adone EXCEPT ![r.p] = r.out] /\ Move(r, "finish") /\ ev' = NoEv
-  /\ UNCHANGED <<store, old, Proc, mu, waiter, gen, closed, call, ncalls, crashes, okstart, Hist, panicked>>
+  /\ UNCHANGED <<store, idx, old, Proc, mu, waiter, gen, closed, call, ncalls, crashes, okstart, Hist, panicked>>
 RFinish(r) ==
   /\ alive /\ r.pc = "finish"
-  /\ store' = [store EXCEPT ![r.p] = IF adone[r.p] = "ok" THEN "CO" ELSE "FA"] /\ Move(r, "close") /\ ev' = NoEv
+  /\ LET t == IF adone[r.p] = "ok" THEN "CO" ELSE "FA" IN
+       /\ store' = [store EXCEPT ![r.p] = t]
+       /\ IF TwoStep THEN Move(r, "ifinish") /\ UNCHANGED idx ELSE Move(r, "close") /\ idx' = [idx EXCEPT ![r.p] = t]
+  /\ ev' = NoEv
   /\ UNCHANGED <<adone, old, Proc, mu, waiter, gen, closed, call, ncalls, crashes, okstart, Hist, panicked>>
+\* the second step of a plan write in a two-container vault: the search record follows the plan item
+RIndex(r) ==
+  /\ alive /\ r.pc \in {"ibegin", "ifinish"}
+  /\ idx' = [idx EXCEPT ![r.p] = store[r.p]] /\ Move(r, IF r.pc = "ibegin" THEN "invoke" ELSE "close") /\ ev' = NoEv
+  /\ UNCHANGED <<store, adone, old, Proc, mu, waiter, gen, closed, call, ncalls, crashes, okstart, Hist, panicked>>
 \* waiter, _ := e.waiters.Get(plan.ID); close(waiter)   - by key: whatever is registered under the id
 RClose(r) ==
   /\ alive /\ r.pc = "close"
@@ -241,14 +256,15 @@ Crash ==
 
 NewProcess ==
   /\ ~alive
-  /\ \E rec \in RecoveryModes : Boot(store, rec, gen)
+  /\ idx' = IndexRepaired(store, idx)
+  /\ \E rec \in RecoveryModes : Boot(store, idx', rec, gen)
   /\ ev' = [ev |-> "XRestart"]
-  /\ UNCHANGED <<Dur, old, closed, ncalls, crashes, Hist, panicked>>
+  /\ UNCHANGED <<store, adone, old, closed, ncalls, crashes, Hist, panicked>>
 
 Internal ==
   \/ \E c \in Callers : SubCreate(c) \/ SLock(c) \/ SChk(c) \/ SRead(c) \/ SVal(c) \/ SRun(c) \/ SUnlock(c)
                         \/ WGet(c) \/ WBlock(c) \/ RRead(c) \/ SRd(c)
-  \/ \E r \in runners : RBegin(r) \/ RResume(r) \/ RRecord(r) \/ RFinish(r) \/ RClose(r) \/ RDel(r)
+  \/ \E r \in runners : RBegin(r) \/ RResume(r) \/ RRecord(r) \/ RFinish(r) \/ RIndex(r) \/ RClose(r) \/ RDel(r)
 Visible ==
   \/ \E c \in Callers : Return(c)
   \/ \E r \in runners : RInvoke(r) \/ \E o \in {"ok", "fail"} : RPlugin(r, o)
@@ -287,6 +303,8 @@ StaleRejected == \A c \in Callers : (call[c].op = "start" /\ call[c].pc = "ret" 
 TerminalStable == [][\A p \in Plans : Rank(store'[p]) >= Rank(store[p]) /\ (store[p] \in Terminal => store'[p] = store[p])]_vars
 \* C11: a new process touches only plans stored Running, and only with recovery switched on
 OnlyRunningResumed == [][~alive /\ alive' => \A r \in runners' : store[r.p] = "RU" /\ recovery']_vars
+\* the index lags the plan by at most the one write in progress, and never claims more than the plan
+IndexLags == \A p \in Plans : Rank(idx[p]) <= Rank(store[p]) /\ (~TwoStep => idx[p] = store[p])
 \* liveness: every call returns (or the process dies), every plan that was started ends
 CallsReturn == \A c \in Callers : (call[c].op \notin {"idle"} /\ call[c].pc # "block") ~> (call[c].op = "idle" \/ call[c].pc = "block")
 WaitsReturn == \A c \in Callers : (call[c].pc = "block") ~> (call[c].op = "idle")
